@@ -369,6 +369,11 @@ func c04Name(r *rand.Rand) string {
 	rs := []rune{}
 	for i := 0; i < n; i++ {
 		switch {
+		case i == 0 && r.Intn(12) == 0:
+			rs = append(rs, '注') // a name may begin like a comment opener
+			if r.Intn(2) == 0 {
+				rs = append(rs, rune('0'+r.Intn(10)))
+			}
 		case i > 0 && r.Intn(8) == 0:
 			rs = append(rs, []rune("+-*/._%0123456789")[r.Intn(17)])
 		case r.Intn(10) == 0:
@@ -397,7 +402,16 @@ func nameOK(s string) bool {
 			return false
 		}
 		if rs[i] == '注' && i == 0 {
-			return false
+			// 注 [digits] ： opens a comment; a run that merely begins with 注 is a name. Runs that
+			// are nothing but 注 and digits are left out (a following colon token would make
+			// them a comment opener)
+			k := 1
+			for k < len(rs) && rs[k] >= '0' && rs[k] <= '9' {
+				k++
+			}
+			if k >= len(rs) {
+				return false
+			}
 		}
 		if rs[i] == '/' && i+1 < len(rs) && (rs[i+1] == '/' || rs[i+1] == '*' || rs[i+1] == '=') {
 			return false
@@ -598,10 +612,8 @@ func checkC04Segmentation(c *Ctx) {
 				j += len([]rune(k))
 				continue
 			}
-			if rs[j] == '注' && len(cur) == 0 {
-				okCase = false
-				break
-			}
+			// (注 at the start of a run is an ordinary identifier character unless digits and a
+			// colon follow - this alphabet has no colon)
 			cur = append(cur, rs[j])
 			j++
 		}
